@@ -2068,6 +2068,18 @@ func CheckMultisigPar(curve elliptic.Curve, h []byte, pkeys [][]byte, sigs [][]b
 		})
 	}
 
+	// Keys are decoded when they're needed and a malformed one fails the
+	// check then. The set of keys needed by the parallel check depends on the
+	// order its results come in, so it's used for well-formed keys only.
+	pubs := make([]*keys.PublicKey, len(pkeys))
+	for i := range pkeys {
+		pub, err := keys.NewPublicKeyFromBytes(pkeys[i], curve)
+		if err != nil {
+			return checkMultisigSeq(curve, h, pkeys, sigs)
+		}
+		pubs[i] = pub
+	}
+
 	k1, k2 := 0, len(pkeys)-1
 	s1, s2 := 0, len(sigs)-1
 
@@ -2103,8 +2115,8 @@ func CheckMultisigPar(curve elliptic.Curve, h []byte, pkeys [][]byte, sigs [][]b
 		go worker(tasks, results)
 	}
 
-	tasks <- task{pub: bytesToPublicKey(pkeys[k1], curve), signum: s1}
-	tasks <- task{pub: bytesToPublicKey(pkeys[k2], curve), signum: s2}
+	tasks <- task{pub: pubs[k1], signum: s1}
+	tasks <- task{pub: pubs[k2], signum: s2}
 
 	sigok := true
 	taskCount := 2
@@ -2148,10 +2160,25 @@ loop:
 			nextKey = k2
 		}
 		taskCount++
-		tasks <- task{pub: bytesToPublicKey(pkeys[nextKey], curve), signum: nextSig}
+		tasks <- task{pub: pubs[nextKey], signum: nextSig}
 	}
 
 	return sigok
+}
+
+// checkMultisigSeq checks signatures against the keys one by one, from the
+// first one to the last one, decoding a key right before it's used.
+func checkMultisigSeq(curve elliptic.Curve, h []byte, pkeys [][]byte, sigs [][]byte) bool {
+	for i, j := 0, 0; i < len(sigs) && j < len(pkeys); {
+		if bytesToPublicKey(pkeys[j], curve).Verify(sigs[i], h) {
+			i++
+		}
+		j++
+		if len(sigs)-i > len(pkeys)-j {
+			return false
+		}
+	}
+	return true
 }
 
 func cloneIfStruct(item stackitem.Item) (stackitem.Item, bool) {
